@@ -46,6 +46,8 @@ func C14(c *Ctx) {
 	R17YaotlTags(c)
 	R17Consumers(c)
 	R17Gohcl(c)
+	R17Severity(c)
+	R17LabelArity(c)
 	R18ErrDrop(c)
 }
 
@@ -55,7 +57,9 @@ func C13(c *Ctx) {
 	R15EnumFam(c)
 	R15ErrDiscipline(c)
 	R15NoCarry(c)
+	R15CountLoop(c)
 	R8PackerWidth(c)
+	R8ByteOrder(c)
 	R16ShellSink(c)
 }
 
@@ -64,6 +68,7 @@ func C15(c *Ctx) {
 	R15ClosePropagation(c)
 	R8CmpWidth(c, 1)
 	R15FailureCloses(c)
+	R15PrivateChunk(c)
 	R4Lockset(c, sharedRelayTables, 10)
 	isRelay := func(fn string) bool {
 		for _, s := range []string{"TaskPrepare", "TaskDispatch", "PortFwd", "SocksClient", "SocksServer", "socks."} {
@@ -88,6 +93,8 @@ func C16(c *Ctx) {
 	R12Registry(c)
 	R12OwnerEndpoints(c)
 	R12EndpointKey(c)
+	R12RemoveIdempotent(c)
+	R12PointerHandlers(c)
 	R9NameIdentity(c)
 	R5RangeMut(c, func(fn string) bool {
 		return strings.Contains(fn, "service.") || strings.Contains(fn, "ListenerRemove") || strings.Contains(fn, "EndpointRemove") || strings.Contains(fn, "EventRemove")
@@ -114,11 +121,15 @@ func C16(c *Ctx) {
 func C12(c *Ctx) {
 	R11HTTPProfile(c)
 	R11RedirProvenance(c)
+	R11NoCarry(c)
+	R11ListSeparator(c)
+	R11ConfigVerbatim(c)
 }
 
 func C11(c *Ctx) {
 	R13EventLog(c)
 	R13Deadline(c)
+	R13Regenerated(c)
 	R3LockPair(c, func(fn, lock string) bool {
 		return strings.Contains(lock, "Mutex") && (strings.Contains(fn, "server.") || strings.Contains(fn, "service."))
 	}, 3)
